@@ -31,6 +31,8 @@ pub enum Op {
     ReadList,
     /// drop the store and open the file again (Drop flushes)
     Restart,
+    /// `n` remote inserts of fresh keys in a row, nothing in between: one large uncommitted batch
+    Bulk { d: u8, n: u16 },
 }
 
 #[derive(Serialize, Deserialize, Clone, Debug)]
@@ -95,7 +97,35 @@ impl Prop for C06 {
             1 => Just(Op::ReadList),
             1 => Just(Op::Restart),
         ];
-        (vec(op, 1..=max), prop::bool::weighted(0.25)).prop_map(|(ops, via_actor)| Case { ops, via_actor }).boxed()
+        let plain = (vec(op.clone(), 1..=max), prop::bool::weighted(0.25)).prop_map(|(ops, via_actor)| Case { ops, via_actor });
+        // a large uncommitted batch: durable base entries, flush, hundreds or thousands of inserts (sizes just below round
+        // numbers of operations or of table writes), an odd or even number of single-write settings, then writes that prune
+        // the durable base entries - whatever makes a store commit "when the batch is big enough" must not split one of them
+        let round = prop::sample::select(vec![256u16, 512, 1000, 1024, 2000, 2048]);
+        let bulk = (round, any::<bool>(), 0u16..14, 0u8..4, vec(op, 12..=20)).prop_map(|(t, per_write, r, singles, tail)| {
+            let n = if per_write { t / 2 } else { t }.saturating_sub(r);
+            let mut ops = vec![Op::ImportAuthor(0), Op::ImportAuthor(1), Op::ImportAuthor(2), Op::ImportDoc(0)];
+            for k in 0..7u8 {
+                ops.push(Op::Remote { d: 0, a: k % 2, k, t: 0, c: 1 });
+            }
+            ops.push(Op::Flush);
+            ops.push(Op::Bulk { d: 0, n });
+            for i in 0..singles {
+                ops.push(if i % 2 == 0 { Op::Policy(0, i) } else { Op::Peer(0, i) });
+            }
+            // the tail: only writes into document 0 (no commits), pruning the durable base entries
+            for (i, o) in tail.into_iter().enumerate() {
+                ops.push(match o {
+                    Op::Local { a, k, c, .. } => Op::Local { d: 0, a, k, c },
+                    Op::Delete { a, k, .. } => Op::Delete { d: 0, a, k },
+                    Op::Remote { a, k, c, .. } => Op::Remote { d: 0, a: a % 2, k, t: 5, c },
+                    _ => Op::Local { d: 0, a: (i % 2) as u8, k: (i % 7) as u8, c: 2 },
+                });
+            }
+            Case { ops, via_actor: false }
+        });
+        let share = tier.pick(5u32, 8u32);
+        prop_oneof![100 - share => plain, share => bulk].boxed()
     }
 
     fn check(ctx: &mut Ctx, c: &Case) -> Outcome {
@@ -120,6 +150,42 @@ impl Prop for C06 {
     fn worker_budget_s(tier: Tier) -> u64 {
         tier.pick(1500, 10_000)
     }
+}
+
+/// The entries of a bulk operation (signed once per worker): fresh keys `z<i>` that no other operation touches.
+fn bulk_entries(d: u8) -> &'static Vec<SignedEntry> {
+    static B: std::sync::OnceLock<Vec<Vec<SignedEntry>>> = std::sync::OnceLock::new();
+    &B.get_or_init(|| {
+        (0..2u8)
+            .map(|d| (0..2048u16).map(|i| sign(namespace(d), &ESpec { a: 2, k: vec![b'z', (i >> 8) as u8, i as u8], t: T0 + 1, c: 1 })).collect())
+            .collect()
+    })[d as usize % 2]
+}
+
+/// Remove the entries of a bulk operation (keys `z<i>` of author 2) from a dump: (rest, how many, were they exactly the
+/// first m of the batch). Heads of the bulk author and the protected hashes are left out of the comparison.
+fn strip_bulk(d: &StoreDump) -> (StoreDump, usize, bool) {
+    let mut out = d.clone();
+    let mut m = 0;
+    let mut ok = true;
+    let bulk_author = author(2).id();
+    for doc in out.docs.values_mut() {
+        let is_bulk = |e: &SignedEntry| e.author() == bulk_author && e.key().len() == 3 && e.key()[0] == b'z';
+        let mut idx: Vec<usize> = doc.entries.iter().filter(|e| is_bulk(e)).map(|e| ((e.key()[1] as usize) << 8) | e.key()[2] as usize).collect();
+        idx.sort();
+        if idx.iter().enumerate().any(|(i, k)| i != *k) {
+            ok = false;
+        }
+        if doc.by_key.iter().filter(|e| is_bulk(e)).count() != idx.len() {
+            ok = false;
+        }
+        m += idx.len();
+        doc.entries.retain(|e| !is_bulk(e));
+        doc.by_key.retain(|e| !is_bulk(e));
+        doc.heads.remove(&bulk_author.to_bytes());
+    }
+    out.content_hashes.clear();
+    (out, m, ok)
 }
 
 fn docs() -> Vec<NamespaceId> {
@@ -212,6 +278,17 @@ fn apply(rt: &tokio::runtime::Runtime, store: &mut Store, i: usize, op: &Op) -> 
             // handled by the caller (needs the path); documented commit (Drop flushes)
             commits = true;
         }
+        Op::Bulk { d, n } => {
+            let entries = bulk_entries(*d);
+            rt.block_on(async {
+                if let Ok(mut r) = store.open_replica(&ids[*d as usize]) {
+                    for e in entries.iter().take(*n as usize) {
+                        let _ = r.insert_remote_entry(e.clone(), [6u8; 32], ContentStatus::Missing).await;
+                    }
+                }
+            });
+            store.close_replica(ids[*d as usize]);
+        }
     }
     Ok((commits, pruned))
 }
@@ -253,7 +330,15 @@ fn run(ctx: &mut Ctx, c: &Case, o: &mut Outcome) -> R<()> {
     let total = *access_after_op.last().unwrap_or(&0);
     let cap = ctx.tier.pick(120, 400);
     let mut placements: Vec<Option<u64>> = vec![None];
-    placements.extend((1..=total.min(cap)).map(Some));
+    let bulk_at = c.ops.iter().position(|op| matches!(op, Op::Bulk { .. }));
+    if let Some(b) = bulk_at {
+        // thousands of accesses: a forced commit only at a few places after the batch (inside the first operations that follow)
+        o.class("large-uncommitted-batch");
+        let start = access_after_op[b];
+        placements.extend((start + 1..=(start + 12).min(total)).map(Some));
+    } else {
+        placements.extend((1..=total.min(cap)).map(Some));
+    }
 
     let image = ctx.fresh_path("c06-image");
     let mut evaluated = 0u64;
@@ -302,7 +387,21 @@ fn run(ctx: &mut Ctx, c: &Case, o: &mut Outcome) -> R<()> {
             }
             drop(img);
             let _ = std::fs::remove_file(&image);
-            let hit = (last_commit..=i + 1).find(|j| states[*j] == got);
+            let mut hit = (last_commit..=i + 1).find(|j| states[*j] == got);
+            if hit.is_none() {
+                if let Some(b) = bulk_at {
+                    // a bulk operation is thousands of inserts: the real age-based commit (500 ms of wall-clock time) may fire
+                    // between two of them, so "S_b plus the first m inserts of the batch" is a state the store passed through
+                    if last_commit <= b + 1 && b <= i {
+                        let (g, m, prefix_ok) = strip_bulk(&got);
+                        let (sb, _, _) = strip_bulk(&states[b]);
+                        if prefix_ok && m > 0 && g == sb {
+                            hit = Some(b);
+                            o.class("large-uncommitted-batch/age-commit-inside-the-batch");
+                        }
+                    }
+                }
+            }
             if inside && hit.map(|j| j < i + 1).unwrap_or(true) {
                 o.nontrivial = true;
                 o.class("placement-inside-multi-access-op+image-before-next-commit");
@@ -363,7 +462,7 @@ fn run(ctx: &mut Ctx, c: &Case, o: &mut Outcome) -> R<()> {
         o.class("images-checked");
     }
     o.count("crash_images_opened", evaluated);
-    o.count("commit_placements", total.min(cap) + 1);
+    o.count("commit_placements", if bulk_at.is_some() { 13 } else { total.min(cap) + 1 });
     Ok(())
 }
 
@@ -464,7 +563,7 @@ fn run_actor(ctx: &mut Ctx, c: &Case, o: &mut Outcome) -> R<()> {
                 Op::ReadList => {
                     let _ = crate::act::list_replicas(&h).await?;
                 }
-                Op::Restart => {}
+                Op::Restart | Op::Bulk { .. } => {}
             }
             Ok(())
         });
